@@ -32,10 +32,8 @@ package utils
 //@            result == (dyn(v1.Value, *sdcpb.TypedValue_FloatVal).FloatVal == dyn(v2.Value, *sdcpb.TypedValue_FloatVal).FloatVal)
 //@   ensures double_kind: bothKind(v1, v2, kindof(*sdcpb.TypedValue_DoubleVal)) && dyn(v1.Value, *sdcpb.TypedValue_DoubleVal) != nil && dyn(v2.Value, *sdcpb.TypedValue_DoubleVal) != nil ==>
 //@            result == (dyn(v1.Value, *sdcpb.TypedValue_DoubleVal).DoubleVal == dyn(v2.Value, *sdcpb.TypedValue_DoubleVal).DoubleVal)
-//@   ensures decimal_kind: bothKind(v1, v2, kindof(*sdcpb.TypedValue_DecimalVal)) && dyn(v1.Value, *sdcpb.TypedValue_DecimalVal) != nil && dyn(v2.Value, *sdcpb.TypedValue_DecimalVal) != nil &&
-//@            dyn(v1.Value, *sdcpb.TypedValue_DecimalVal).DecimalVal != nil && dyn(v2.Value, *sdcpb.TypedValue_DecimalVal).DecimalVal != nil ==>
-//@            result == (dyn(v1.Value, *sdcpb.TypedValue_DecimalVal).DecimalVal.Digits == dyn(v2.Value, *sdcpb.TypedValue_DecimalVal).DecimalVal.Digits &&
-//@                       dyn(v1.Value, *sdcpb.TypedValue_DecimalVal).DecimalVal.Precision == dyn(v2.Value, *sdcpb.TypedValue_DecimalVal).DecimalVal.Precision)
+//@   ensures decimal_kind: bothKind(v1, v2, kindof(*sdcpb.TypedValue_DecimalVal)) && dyn(v1.Value, *sdcpb.TypedValue_DecimalVal) != nil && dyn(v2.Value, *sdcpb.TypedValue_DecimalVal) != nil ==>
+//@            result == equalDecimal64(dyn(v1.Value, *sdcpb.TypedValue_DecimalVal).DecimalVal, dyn(v2.Value, *sdcpb.TypedValue_DecimalVal).DecimalVal)
 //@   ensures bytes_kind: bothKind(v1, v2, kindof(*sdcpb.TypedValue_BytesVal)) && dyn(v1.Value, *sdcpb.TypedValue_BytesVal) != nil && dyn(v2.Value, *sdcpb.TypedValue_BytesVal) != nil ==>
 //@            result == bytes.Equal(dyn(v1.Value, *sdcpb.TypedValue_BytesVal).BytesVal, dyn(v2.Value, *sdcpb.TypedValue_BytesVal).BytesVal)
 //@   ensures json_kind: bothKind(v1, v2, kindof(*sdcpb.TypedValue_JsonVal)) && dyn(v1.Value, *sdcpb.TypedValue_JsonVal) != nil && dyn(v2.Value, *sdcpb.TypedValue_JsonVal) != nil ==>
@@ -49,6 +47,30 @@ package utils
 //@   ensures leaflist_lengths: bothKind(v1, v2, kindof(*sdcpb.TypedValue_LeaflistVal)) && dyn(v1.Value, *sdcpb.TypedValue_LeaflistVal) != nil && dyn(v2.Value, *sdcpb.TypedValue_LeaflistVal) != nil &&
 //@            dyn(v1.Value, *sdcpb.TypedValue_LeaflistVal).LeaflistVal != nil && dyn(v2.Value, *sdcpb.TypedValue_LeaflistVal).LeaflistVal != nil &&
 //@            len(dyn(v1.Value, *sdcpb.TypedValue_LeaflistVal).LeaflistVal.Element) != len(dyn(v2.Value, *sdcpb.TypedValue_LeaflistVal).LeaflistVal.Element) ==> !result
+
+// ---------------------------------------------------------------------------
+// C12: decimal64 values are compared as numbers. decimalNumber(d, p) stands for the number d / 10^p (an abstract
+// identifier); all that is assumed of it is that a trailing zero does not change the number.
+//@ spec decimalNumber(int, int) int
+//@ axiom decimal_trailing_zero: allint(d, allint(p, trigger(decimalNumber(d * 10, p + 1), decimalNumber(d * 10, p + 1) == decimalNumber(d, p))))
+//@ func scaleDecimal64
+//@   props C12 C15 C09
+//@   modifies nothing
+//@   ensures same_number_at_the_higher_precision [C12]: r1 && precision <= to ==> decimalNumber(r0, to) == decimalNumber(digits, precision)
+//@   ensures not_scaled_down [C12]: precision >= to ==> r1 && r0 == digits
+//@   ensures one_more_fraction_digit_is_one_zero [C12]: to == precision + 1 && digits <= 900000000000000000 && digits >= -900000000000000000 ==> r1 && r0 == digits * 10
+//@   loop 0 invariant decimalNumber(digits, precision) == decimalNumber($entry_digits, $entry_precision) && precision >= $entry_precision && ($entry_precision <= to ==> precision <= to) && ($entry_precision >= to ==> precision == $entry_precision)
+//@   loop 0 invariant (precision == $entry_precision ==> digits == $entry_digits) && (precision == $entry_precision + 1 ==> digits == $entry_digits * 10)
+//@ func equalDecimal64
+//@   props C12 C15 C09
+//@   pure
+//@   modifies nothing
+//@   ensures equal_only_for_the_same_number [C12 C15 C09]: result ==> decimalNumber(a.GetDigits(), a.GetPrecision()) == decimalNumber(b.GetDigits(), b.GetPrecision())
+//@   ensures same_representation_is_equal [C12]: a.GetDigits() == b.GetDigits() && a.GetPrecision() == b.GetPrecision() ==> result
+//@   ensures a_trailing_zero_does_not_matter [C12 C15 C09]: a.GetDigits() <= 900000000000000000 && a.GetDigits() >= -900000000000000000 &&
+//@            b.GetPrecision() == a.GetPrecision() + 1 && b.GetDigits() == a.GetDigits() * 10 ==> result
+//@   ensures a_trailing_zero_does_not_matter_either_way [C12 C15 C09]: b.GetDigits() <= 900000000000000000 && b.GetDigits() >= -900000000000000000 &&
+//@            a.GetPrecision() == b.GetPrecision() + 1 && a.GetDigits() == b.GetDigits() * 10 ==> result
 
 // ---------------------------------------------------------------------------
 // C12: rendering of the 64-bit integer kinds is exact (no narrowing conversion)
